@@ -37,7 +37,7 @@ theorem appendAt_appendAt (st : MState) (idx : Nat) (a b : List Val) (hl : idx <
   have := curList_appendAt st idx a hl
   simp only [appendAt] at this ⊢
   simp only [curList] at this ⊢
-  rw [this, setAt_setAt, List.append_assoc]
+  rw [this, setAt_setAt_s, List.append_assoc]
 
 theorem wf_appendAt (d : MsgD) (st : MState) (idx : Nat) (f : FieldD) (es : List Val)
     (hf : d.fields[idx]? = some f) (hr : f.repeated = true) (hw : WfState d st) : WfState d (appendAt st idx es) :=
@@ -75,7 +75,7 @@ theorem applyField_repeated (S : Schema) (rec : Loader) (d : MsgD) (st : MState)
         = appendAt st idx ys := by
     intro ys
     rw [hst1]
-    simp only [appendAt, hcl, setAt_setAt]
+    simp only [appendAt, hcl, setAt_setAt_s]
   cases v <;> simp only [elemsOf] <;> rw [← key]
 
 /-- the elements a sequence of records of one repeated field carries -/
